@@ -143,6 +143,7 @@ var specC24 = vstat.Spec[srvCase]{
 	Gen:      genC24,
 	Check:    checkC24,
 	Inflight: true,
+	Confirm:  true,
 }
 
 func TestC24(t *testing.T)       { vstat.Check(t, specC24) }
@@ -354,6 +355,7 @@ var specC25 = vstat.Spec[c25Case]{
 	Gen:      genC25,
 	Check:    checkC25,
 	Inflight: true,
+	Confirm:  true,
 }
 
 func TestC25(t *testing.T)       { vstat.Check(t, specC25) }
